@@ -468,6 +468,13 @@ def judge(chk, sc, ev, origin, stats):
     """Apply the decision rule to one evaluated scenario."""
     d, ci, cc, flat, mspec = ev
     cname = CLASS_NAMES.get(cc)
+    if len(chk.violations) >= 6:          # enough replay files for one run; keep counting
+        if sc.viol and not (ci >= 0 and ci <= sc.viol[0][0] and cname):
+            stats["more"] = stats.get("more", 0) + 1
+        if d >= 0:
+            stats["diff"] += 1
+            stats["more"] = stats.get("more", 0) + 1
+        return
     payload = {"suite": "uidhist", "origin": origin, "script": sc.script}
     first_v = sc.viol[0] if sc.viol else None
     if first_v is not None:
@@ -587,6 +594,8 @@ def run(chk):
     chk.cov["clean_histories_spec_holds_on_impl"] = stats["clean_ok"]
     chk.cov["known_class_hits"] = stats["known"]
     chk.cov["spec_impl_disagreements"] = stats["spec_disagree"]
+    if stats.get("more"):
+        chk.notes.append("%d further histories with a violation or a model/implementation difference were not written out" % stats["more"])
     if stats["clean"] == 0:
         chk.broken_obligation("no generated history was in the scope of the positive theorems (generator or classifier broken)", {"suite": "uidhist"})
 
